@@ -527,7 +527,7 @@ the destination is inspected after the writer is dropped. non-trivial = at least
 		{
 			for dst in [Dst::Slice(2048), Dst::Vector(5)]
 			{
-				cases.push(Case{fam: Some(0xE48BFF56), ps, al, dst, ops: Vec::new()});
+				cases.push(Case{fam: Some(0xE48BFF56), ps, al, dst: dst.clone(), ops: Vec::new()});
 				let mk = |all: bool, n: u64| Op{all, addr: 0x1000_0000, text: format!("#{n},7,3"), data: data_of_text(&format!("#{n},7,3")).unwrap(), no_flash: false};
 				cases.push(Case{fam: None, ps, al, dst, ops: vec![mk(false, 300), mk(false, 256), mk(true, 100), mk(true, 600)]});
 			}
